@@ -8,7 +8,9 @@ For every patch under /verif/seeded/<id>/patch.diff and /verif/mutants/*.patch:
   VIOLATION was reported.  Negative controls (meta "expect": "silent") must stay silent.
 The copy, its __pycache__ and the scratch evidence/replays are removed afterwards.
 
-  sensitivity.py [--only <id-substring>] [--tier quick] [--checks C02,C16]
+  sensitivity.py [--only <id-substring>] [--tier quick] [--checks C02,C16] [--mode worktree|copy]
+  (mode worktree, the default: scratch git worktree with the patch applied uncommitted, as with
+   `git -C /repo apply`; mode copy: plain copy without git metadata, so no change-aware budget)
 writes /verif/selftest/sensitivity-report.json
 """
 import os, sys, json, glob, shutil, subprocess, tempfile, time
@@ -56,8 +58,14 @@ BASE_FAILS = ['tests/test_hungarian_score.py::HunTest::test_scores', 'tests/test
               'tests/test_import_at_top_level.py::ImportTest::test_fake_signatures']
 
 
+MODE = 'worktree'
+
+
 def main():
+    global MODE
     args = sys.argv[1:]
+    if '--mode' in args:
+        MODE = args[args.index('--mode') + 1]
     only = args[args.index('--only') + 1] if '--only' in args else None
     tier = args[args.index('--tier') + 1] if '--tier' in args else 'quick'
     forced = args[args.index('--checks') + 1].split(',') if '--checks' in args else None
@@ -86,9 +94,24 @@ def _main(only, tier, forced, snap):
         copy = os.path.join(scratch, 'repo')
         out = os.path.join(scratch, 'out')
         try:
-            shutil.copytree(REPO, copy, ignore=shutil.ignore_patterns('.git', '__pycache__', 'sampledata', 'node_modules'))
-            rc, o = sh(['patch', '-p1', '--no-backup-if-mismatch', '-i', case['patch']], cwd=copy)
-            entry = {'patch_applied': rc == 0, 'expect': case['expect'], 'tier': tier, 'when': time.strftime('%Y-%m-%d %H:%M:%S')}
+            if MODE == 'copy':
+                # a plain copy without git metadata: the checks get no hint about what changed
+                shutil.copytree(REPO, copy, ignore=shutil.ignore_patterns('.git', '__pycache__', 'sampledata', 'node_modules'))
+                rc, o = sh(['patch', '-p1', '--no-backup-if-mismatch', '-i', case['patch']], cwd=copy)
+            else:
+                # a scratch git worktree with the patch applied but not committed - the situation of
+                # `git -C /repo apply <file>`; C16's change-aware budget sees the difference
+                rc, o = sh(['git', '-C', REPO, 'worktree', 'add', '--detach', copy, 'HEAD'])
+                if rc == 0:
+                    rc, o = sh(['git', 'apply', case['patch']], cwd=copy)
+            entry = {'patch_applied': rc == 0, 'expect': case['expect'], 'tier': tier, 'mode': MODE,
+                     'when': time.strftime('%Y-%m-%d %H:%M:%S')}
+            prev = report.get(case['id'], {})
+            if MODE != 'copy' and prev.get('mode', 'copy') == 'copy' and prev.get('checks'):
+                entry['no_git_copy_run'] = {'verdict': prev.get('verdict'), 'checks': {c: {'exit': x['exit'], 'violations': x['violations']}
+                                                                                      for c, x in prev['checks'].items()}}
+            elif prev.get('no_git_copy_run'):
+                entry['no_git_copy_run'] = prev['no_git_copy_run']
             if rc != 0:
                 entry['error'] = o[-400:]
                 report[case['id']] = entry
@@ -128,6 +151,9 @@ def _main(only, tier, forced, snap):
                                                entry.get('demo_fails_with_patch'), entry.get('demo_passes_without_patch'), entry['verdict'],
                                                {k: (v['exit'], v['classes'][:3]) for k, v in results.items()}), flush=True)
         finally:
+            if MODE != 'copy':
+                sh(['git', '-C', REPO, 'worktree', 'remove', '--force', copy])
+                sh(['git', '-C', REPO, 'worktree', 'prune'])
             shutil.rmtree(scratch, ignore_errors=True)
         with open(report_path, 'w') as f:
             json.dump(report, f, indent=1, sort_keys=True)
